@@ -75,6 +75,7 @@ void sim_drain(void);           /* DESIGN 2.8 quiescence */
 int sim_fiber_index(void* f);   /* creation index of a fiber (ghost), -1 unknown */
 int sim_fiber_dead(void* f);    /* control block freed */
 int sim_fiber_switch_ins(void* f);
+int sim_fiber_wakeups(void* f);   /* times f was made runnable by a wake-up (not creation, not its own yield) */
 void* sim_current_fiber(void);
 uint64_t sim_fiber_switches(void);
 uint64_t sim_migrations(void);
